@@ -58,6 +58,11 @@ def check(prog, run):
             fapp = (calls[0], x)
         if any(isinstance(s, ast.Subscript) and isinstance(s.value, ast.Name) and s.value.id == pSvec for s in ast.walk(x)) and vapp is None:
             vapp = (calls[0], x)
+    lowered = _lam_outputs(prog, fi, pSval, pSvec, pfreq, psel, pDF) if (fapp is None or vapp is None) else None
+    if lowered is not None:
+        # the index-level model of the routine (sa/lamdom.py): element k of the returned frequencies / shapes as scalar expressions in
+        # sel_freq[k], whatever mixture of loops, helpers and batched searches computes them
+        fapp, vapp = lowered
     if fapp is None or vapp is None:
         ob("R-rebase", "appended frequency / shape", None, "appends of freq[...] / Svec[...] not found")
         return
@@ -113,7 +118,9 @@ def check(prog, run):
             ok = False
             if isinstance(d, ast.BinOp) and isinstance(d.op, ast.Sub) and isinstance(d.left, ast.Name) and d.left.id == pfreq:
                 r = d.right
-                ok = isinstance(r, ast.BinOp) and isinstance(r.op, sign) and isinstance(r.right, ast.Name) and r.right.id == pDF and isinstance(r.left, ast.Name)
+                # the selected frequency: the loop variable over sel_freq, or sel_freq[k] in the index-level model
+                is_sel = lambda z: isinstance(z, ast.Name) or (isinstance(z, ast.Subscript) and isinstance(z.value, ast.Name) and z.value.id == psel)
+                ok = isinstance(r, ast.BinOp) and isinstance(r.op, sign) and isinstance(r.right, ast.Name) and r.right.id == pDF and is_sel(r.left)
             ob("R-band", f"{nm} limit = argmin |freq - (sel {'-' if sign is ast.Sub else '+'} DF)|", ok, f"`{astq.src(bound, 90) if bound is not None else None}`", astq.src(bound, 70) if bound is not None else "none", fapp[0])
     # the vector read at the same index
     vsub = [s for s in ast.walk(vapp[1]) if isinstance(s, ast.Subscript) and isinstance(s.value, ast.Name) and s.value.id == pSvec]
@@ -124,6 +131,42 @@ def check(prog, run):
     ob("R-vector", "returned shape is the DOMINANT (first) singular vector", dom, f"`{astq.src(v, 60)}`", astq.src(v, 60), vapp[0])
     ob("R-rebase", "singular vector read at the same line as the frequency", okv, f"`{astq.src(v, 90)}`", astq.src(v, 70), vapp[0])
     writer_reader(prog, run, [(fi, v)])
+
+
+class _Norm(ast.NodeTransformer):
+    """X[:] of a vector is X"""
+
+    def visit_Subscript(self, node):
+        self.generic_visit(node)
+        if isinstance(node.value, ast.Name) and astq.is_full_slice(node.slice):
+            return node.value
+        return node
+
+
+def _lam_outputs(prog, fi, pSval, pSvec, pfreq, psel, pDF):
+    """((node, freq[...] expression), (node, expression containing Svec[...])) of one element of the two returned arrays, or None"""
+    from .. import lamdom
+    try:
+        it = lamdom.Interp(prog, fi, ranks={pSval: 3, pSvec: 3, pfreq: 1, psel: 1, pDF: 0}, consts={})
+        it.run()
+    except Exception:
+        return None
+    rets = [r for r in it.returns if isinstance(r["value"], lamdom.Tup) and len(r["value"].items) == 2]
+    if not rets:
+        return None
+    r = rets[-1]
+    out = []
+    for v in r["value"].items:
+        lv = it.as_lam(v) if v is not None else None
+        if lv is None:
+            return None
+        out.append(ast.fix_missing_locations(_Norm().visit(lv.body)))
+    fexp, vexp = out
+    if not (isinstance(fexp, ast.Subscript) and isinstance(fexp.value, ast.Name) and fexp.value.id == pfreq):
+        return None
+    if not any(isinstance(x, ast.Subscript) and isinstance(x.value, ast.Name) and x.value.id == pSvec for x in ast.walk(vexp)):
+        return None
+    return (r["node"], fexp), (r["node"], vexp)
 
 
 def writer_reader(prog, run, reads):
@@ -196,8 +239,11 @@ def writer_reader(prog, run, reads):
         if key in seen:
             continue
         seen.add(key)
-        rows_form = astq.is_full_slice(el[1]) and not isinstance(el[0], ast.Slice)
-        cols_form = astq.is_full_slice(el[0]) and not isinstance(el[1], ast.Slice)
+        import re as _re
+        # (in the index-level model the whole component axis shows as its own index variable a<n>)
+        whole = lambda z: astq.is_full_slice(z) or (isinstance(z, ast.Name) and _re.fullmatch(r"a\d+", z.id) is not None)
+        rows_form = whole(el[1]) and not isinstance(el[0], ast.Slice) and not whole(el[0])
+        cols_form = whole(el[0]) and not isinstance(el[1], ast.Slice) and not whole(el[1])
         ok = None if layout is None else ((layout == "rows" and rows_form) or (layout == "cols" and cols_form))
         run.ob("R-vector", rf.qual, "reader takes vector k as S_vec[k, :, line]" if layout != "cols" else "reader takes vector k as S_vec[:, k, line]", ok,
                f"`{astq.src(sub)}` with vectors stored in {layout}", astq.src(sub), file=rel(prog.mods[rf.mod].path), node=sub, config=astq.src(sub))
